@@ -1013,11 +1013,24 @@ func (context *layoutContext) makeAllPages(rootBox bo.BlockLevelBoxITF, html *tr
 			page, resumeAt = context.remakePage(i, rootBox, html)
 			reportedFootnotes = context.reportedFootnotes
 			out = append(out, page)
+			// remember the out-of-flow boxes broken at the end of this page :
+			// they are needed to resume after it if it is not re-made by a later call
+			for len(context.brokenOutOfFlowAfter) <= i {
+				context.brokenOutOfFlowAfter = append(context.brokenOutOfFlowAfter, nil)
+			}
+			context.brokenOutOfFlowAfter[i] = sortedBrokenBoxes(context.brokenOutOfFlow)
 		} else {
 			logger.ProgressLogger.Printf("Step 5 - Creating layout - Page %d (up-to-date)", i+1)
 			resumeAt = context.pageMaker[i+1].InitialResumeAt
 			reportedFootnotes = nil
 			out = append(out, pages[i])
+			// restore the out-of-flow boxes that this page left broken
+			context.brokenOutOfFlow = make(map[Box]brokenBox)
+			if i < len(context.brokenOutOfFlowAfter) {
+				for _, broken := range context.brokenOutOfFlowAfter[i] {
+					context.brokenOutOfFlow[broken.key] = broken
+				}
+			}
 		}
 
 		i += 1
